@@ -137,9 +137,11 @@ pub fn main(args: &[String]) {
     // (i) perft-shaped walks: the start position (contains 1.a4 h6 2.a5 b5 / 1.a4 b5 2.a5 h6 at depth 4) and seeds
     let mut b = Board::starting_position();
     cx.tree(&mut b, tree_depth);
-    for p in seeds.iter() {
+    let deep = arg_u64(args, "--deep-seeds", 0) as usize;
+    for (i, p) in seeds.iter().enumerate() {
         let mut b = p.setup();
-        cx.tree(&mut b, seed_depth);
+        // the first few catalogue seeds (the perft suite) are walked one ply deeper
+        cx.tree(&mut b, if i >= 1 && i <= deep { seed_depth + 1 } else { seed_depth });
     }
     // (ii) random games with backtracking and revisits
     for g in 0..games {
